@@ -194,12 +194,52 @@ META = {
 }
 
 # ----------------------------------------------------------------------------- O15.5 interface files written by another format version / ABI are rejected when read
+def call_site_extra_args(W, fname, nfixed):
+    """constant arguments beyond the first `nfixed` that the real callers (MIR of the current tree) pass to `fname`; one tuple per distinct combination"""
+    from mirsym import mirtext as mt
+    text = W.files['compiler'].text; out = {}
+    for m in re.finditer(r'^fn ([^\n(]+)\(|= %s\(([^\n]*)\) -> \[' % re.escape(fname), text, re.M):
+        if m.group(1) is not None: cur = m.group(1); continue
+        vals = []
+        for x in mt.split_top(m.group(2))[nfixed:]:
+            x = x.strip()
+            if x not in ('const true', 'const false'): raise Unsupported('a caller of %s passes a non-constant extra argument `%s`' % (fname, x))
+            vals.append(x == 'const true')
+        out.setdefault(tuple(vals), []).append(cur)
+    if not out: raise Unsupported('no call site of %s found in the MIR' % fname)
+    return out
+
+def replay_tampered_interface():
+    """real CLI: build package A, change an exported signature in A.interface without updating interface_hash, then `check` and `build` a client against it"""
+    import tempfile, subprocess, shutil, os
+    from vlib import build
+    d = tempfile.mkdtemp(prefix='vf-c15t-')
+    try:
+        os.makedirs(os.path.join(d, 'A')); os.makedirs(os.path.join(d, 'out')); os.makedirs(os.path.join(d, 'm'))
+        open(os.path.join(d, 'A', 'lib.gom'), 'w').write('package A\nfn a_f() -> int32 { 1 }\n')
+        open(os.path.join(d, 'm', 'main.gom'), 'w').write('package Main\nimport A\nfn main() -> unit { string_println(int32_to_string(A::a_f())) }\n')
+        b = build.compiler_bin()
+        r1 = subprocess.run([b, 'build', '--package', 'A', '--input', os.path.join(d, 'A', 'lib.gom'), '--output', os.path.join(d, 'out', 'A')], capture_output=True, text=True, timeout=60)
+        ip = os.path.join(d, 'out', 'A.interface')
+        if r1.returncode != 0 or not os.path.exists(ip): return False, 'could not build A: ' + (r1.stdout + r1.stderr)[-200:]
+        txt = open(ip).read()
+        if '"TInt32"' not in txt: return False, 'unexpected interface layout'
+        open(ip, 'w').write(txt.replace('"TInt32"', '"TBool"'))
+        acc = []
+        for cmd, outp in (('check', os.path.join(d, 'out', 'Main.interface')), ('build', os.path.join(d, 'out', 'Main'))):
+            r2 = subprocess.run([b, cmd, '--package', 'Main', '--input', os.path.join(d, 'm', 'main.gom'), '--interface-path', os.path.join(d, 'out'), '--output', outp], capture_output=True, text=True, timeout=60)
+            if 'invalid interface_hash' not in (r2.stdout + r2.stderr): acc.append('%s (exit %d: %s)' % (cmd, r2.returncode, (r2.stdout + r2.stderr)[-100:].replace('\n', ' | ')))
+        return bool(acc), 'A.interface with a changed signature and the old interface_hash: not rejected as an invalid hash by `compiler %s`' % ', '.join(acc) if acc else 'both `check` and `build` reject the altered interface'
+    finally:
+        shutil.rmtree(d, ignore_errors=True)
+
 def ob_interface_read(r, tier, seed):
     W = e2.fresh_world(CRATES)
+    extras = call_site_extra_args(W, 'load_interface_from_paths', 2)
     IU = W.tt.find_adt(['artifact', 'InterfaceUnit'], 'compiler')
     fv, abi = z3.Int('format_version'), z3.Int('compiler_abi'); hchar = z3.Int('hash_char'); pchar = z3.Int('pkg_char')
     ass = [fv >= 0, fv < 2**32, abi >= 0, abi < 2**32, z3.Or(hchar == ord('H'), hchar == ord('X')), z3.Or(pchar == ord('A'), pchar == ord('B'))]
-    r.bounds = 'one candidate interface file for package "A": format_version and compiler_abi any u32, stored hash equal or different from the recomputed one, declared package A or B'
+    r.bounds = 'one candidate interface file for package "A": format_version and compiler_abi any u32, stored hash equal or different from the recomputed one, declared package A or B; load_interface_from_paths is called with each combination of further constant arguments its real callers pass: %s' % {str(k): sorted(set(v)) for k, v in extras.items()}
     r.assumptions = ['file system and JSON parsing are environment stubs (the file exists and parses to the symbolic InterfaceUnit); InterfaceUnit::compute_hash stubbed to a constant (hash correctness is O15.4 / SHA-256)',
                      'oracle: a unit may be accepted only if its package matches, its hash validates and format_version / compiler_abi equal the compiler\'s constants']
     for n in list(W.methods.get('compute_hash', [])): W.stubs[n[1]] = lambda ex, a: mkstr('H')
@@ -223,7 +263,9 @@ def ob_interface_read(r, tier, seed):
     FV = None
     def entry(ex):
         paths = PyVec([Opaque('dir')])
-        res = ex.call('pipeline::separate::load_interface_from_paths', [mkstr('A'), paths])
+        extra = ex.choose([(True, e_) for e_ in sorted(extras)]) if len(extras) > 1 else next(iter(extras))
+        res = ex.call('pipeline::separate::load_interface_from_paths', [mkstr('A'), paths] + list(extra))
+        ex.notes['extra'] = extra
         return res.idx == 0
     res = e2.explore(r, W, entry, ass)
     consts = {}
@@ -240,9 +282,11 @@ def ob_interface_read(r, tier, seed):
         r.nontrivial += 1
         if m is not None:
             w = {'format_version': e2.mval(m, fv), 'compiler_abi': e2.mval(m, abi), 'hash_valid': chr(e2.mval(m, hchar)) == 'H', 'package': chr(e2.mval(m, pchar))}
+            if p.notes.get('extra'): w['further_arguments'] = list(p.notes['extra']); w['callers'] = sorted(set(extras.get(tuple(p.notes['extra']), [])))
             key = 'foreign-version-interface-accepted' if accepted and (w['format_version'] != consts['FORMAT_VERSION'] or w['compiler_abi'] != consts['COMPILER_ABI']) else ('bad-interface-accepted' if accepted else 'good-interface-rejected')
             if not any(f.key == key for f in r.findings):
                 ok_, detail = True, 'verdict of the real load_interface_from_paths MIR on this unit'
+                if key == 'bad-interface-accepted' and not w['hash_valid']: ok_, detail = replay_tampered_interface()
                 if key == 'foreign-version-interface-accepted': ok_, detail = replay_foreign_interface(w['format_version'] if w['format_version'] != consts['FORMAT_VERSION'] else consts['FORMAT_VERSION'], w['compiler_abi'])
                 r.findings.append(Finding(key, 'interface file %s: %s (compiler constants: format %d, abi %d)' % ('accepted' if accepted else 'rejected', json.dumps(w), consts['FORMAT_VERSION'], consts['COMPILER_ABI']), w, ok_, detail))
         elif len(r.samples) < 2: r.samples.append({'accepted': accepted})
